@@ -734,7 +734,7 @@ func (in *Interp) permute(keys []mapEntry) {
 
 func (in *Interp) choose(n int) int {
 	c := in.forkFree(n)
-	in.draws = append(in.draws, Draw{Kind: "choose", V: uint64(c)})
+	in.addDraw(Draw{Kind: "choose", V: uint64(c)})
 	return c
 }
 
